@@ -172,6 +172,7 @@ def run(rep, thorough):
             w = small_witness(pc, claim, n, b, c, i) or witness(mdl, n, b, c, i)
             report(rep, desc, prof, 'window', w, oc)
     rowwise_probe(rep)
+    like_probe(rep, thorough)
     rep.solver(time.time() - t0, nq)
     rep.cov['functions_encoded'] = list(rep.cov.get('functions_encoded', [])) + ['array::ops::substring::{closure#0} (from MIR)']
     rep.cov.setdefault('bounds', {})
@@ -281,3 +282,70 @@ def rowwise_probe(rep):
     what = 'substring over a batch: row %s differs from the value for that row alone (expected %s)' % (json.dumps(bad[0][0]), json.dumps(bad[0][1]))
     out = rep.counterexample('probe:substring:rowwise', what[:500], {'stmts': stmts, 'got': got, 'expected': exp}, True)
     rep.obligation(out == 'known')
+
+
+def like_match(p, s):
+    """SQL LIKE without an ESCAPE clause: % any sequence (newlines included), _ any one character, the rest literal."""
+    n, m = len(p), len(s)
+    ok = [[False] * (m + 1) for _ in range(n + 1)]
+    ok[0][0] = True
+    for i in range(1, n + 1):
+        for j in range(m + 1):
+            c = p[i - 1]
+            if c == '%':
+                ok[i][j] = ok[i - 1][j] or (j > 0 and ok[i][j - 1])
+            elif j > 0 and (c == '_' or c == s[j - 1]):
+                ok[i][j] = ok[i - 1][j - 1]
+    return ok[n][m]
+
+
+def like_probe(rep, thorough):
+    """Concrete probe (not a solver decision; the regex crate is outside the interpreter): `ArrayImpl::like` compiles the
+    pattern into a regular expression.  Every pattern of up to three characters over {a, %, _, .} and short patterns
+    holding each regex metacharacter are run against a table of short strings (metacharacters and a newline included)
+    and compared with the textbook matcher."""
+    import itertools
+    metas = '.()[]{}*+?|^$'
+    pats = [''.join(t) for k in (1, 2, 3) for t in itertools.product('a%_.', repeat=k)]
+    for mch in metas:
+        pats += [mch, 'a' + mch, mch + 'a', '%' + mch, '_' + mch + '%']
+    pats = list(dict.fromkeys(pats))
+    strs = [''.join(t) for k in (0, 1, 2, 3) for t in itertools.product('ab.', repeat=k)]
+    strs += [mch for mch in metas] + ['a' + mch for mch in metas] + [mch + 'a' for mch in metas] + ['a\nb', '\n', 'ab\n']
+    strs = list(dict.fromkeys(strs))
+    lit = lambda x: "'" + x + "'"
+    stmts = ['create table t(k int not null, s varchar not null)', 'insert into t values ' + ', '.join('(%d, %s)' % (i, lit(x)) for i, x in enumerate(strs))]
+    qs = ['select k from t where s like %s' % lit(p) for p in pats]
+    out, rc, err = rl('sql', {'engine': 'mem', 'stmts': stmts + qs}, timeout=300)
+    res = {o['sql']: o for o in out if 'sql' in o}
+    rep.cov['programs'] += 1
+    bad = {}
+    ran = 0
+    for p, q in zip(pats, qs):
+        o = res.get(q)
+        if o is None:
+            continue
+        ran += 1
+        exp = sorted(i for i, x in enumerate(strs) if like_match(p, x))
+        if o.get('panicked') or not o.get('ok'):
+            bad.setdefault('pattern-fails', []).append((p, 'panic' if o.get('panicked') else o.get('err')))
+            continue
+        got = sorted(int(r[0]) for r in o['rows'])
+        if got != exp:
+            extra = [strs[i] for i in got if i not in exp]
+            missing = [strs[i] for i in exp if i not in got]
+            kind = 'newline' if any('\n' in x for x in extra + missing) and not any('\n' not in x for x in extra + missing) else 'metacharacter-not-literal'
+            bad.setdefault(kind, []).append((p, {'wrongly_matched': extra[:4], 'wrongly_rejected': missing[:4]}))
+    if ran < len(qs):
+        rep.obligation(False)
+        rep.fail_inconclusive('LIKE probe: %d of %d queries ran: %s' % (ran, len(qs), err[-200:]))
+        return
+    if not bad:
+        rep.obligation(True)
+        rep.sample({'kernel': 'LIKE: %d patterns x %d strings' % (len(pats), len(strs)), 'obligation': 'pattern probe (concrete)', 'verdict': 'every pattern selects exactly the strings the textbook matcher selects'}, cap=1)
+        return
+    for kind, items in bad.items():
+        p, detail = items[0]
+        what = 'LIKE %s: %d pattern(s), first %r: %s' % (kind, len(items), p, json.dumps(detail))
+        out_c = rep.counterexample('probe:like:%s' % kind, what[:500], {'stmts': stmts[:1] + ['select k from t where s like %s' % lit(p)], 'patterns': [x[0] for x in items][:40], 'detail': detail}, True)
+        rep.obligation(out_c == 'known')
